@@ -29,9 +29,16 @@ cat $SRC/suite.log >> $LOG
 # TestSyslogFilter is a known pre-existing failure; a flaky timing test is retried once
 R_SUITE=$(grep "^--- FAIL" $SRC/suite.log | grep -vc TestSyslogFilter)
 if [ "$R_SUITE" != 0 ]; then
-  echo "== retry suite once (timing flakes)" >>$LOG
-  go test -count=1 -vet=off -timeout 20m $PKGS > $SRC/suite.log 2>&1; cat $SRC/suite.log >> $LOG
-  R_SUITE=$(grep "^--- FAIL" $SRC/suite.log | grep -vc TestSyslogFilter)
+  # timing/port flakes under load: re-run each failing test on its own (up to 3 times); it must pass at least once
+  R_SUITE=0
+  for T in $(grep "^--- FAIL" $SRC/suite.log | grep -v TestSyslogFilter | awk '{print $3}' | sort -u); do
+    OK=1
+    for k in 1 2 3; do
+      echo "== retry $T ($k)" >>$LOG
+      if go test -count=1 -vet=off -timeout 10m -run "^${T}\$" $PKGS >>$LOG 2>&1; then OK=0; break; fi
+    done
+    [ $OK = 0 ] || R_SUITE=$((R_SUITE+1))
+  done
 fi
 echo "$ID build=$R_BUILD demo_without=$R_WITHOUT(want 0) demo_with=$R_WITH(want !=0) suite_fails=$R_SUITE(want 0)" | tee -a $LOG
 if [ $R_BUILD = 0 ] && [ $R_WITHOUT = 0 ] && [ $R_WITH != 0 ] && [ "$R_SUITE" = 0 ]; then
